@@ -486,6 +486,12 @@ def da_shape(ex, base, node, env, fr):
     raise Unsupported(".shape of a variable without a typed array")
 
 
+@spec("garray")
+def sp_garray(ex, args, kwargs, node):
+    """garray(n, 'int'): a fresh 1-D ghost array of length n with unknown contents"""
+    return Arr.fresh("ghostarr", [args[0]], args[1] if len(args) > 1 else "int")
+
+
 @spec("listmap")
 def sp_listmap(ex, args, kwargs, node):
     """listmap(n): ghost dict {i: [] for i in range(n)}"""
